@@ -162,6 +162,14 @@ func init() {
 		s.MaxAttempts, s.MaxFail = 2, 1
 		s.Budget = mc.Budget{Crashes: 1, Lag: 1}
 		add(s)
+		// Restart with informers that list one after the other.
+		for _, shape := range []string{"none", "count2"} {
+			cs := jobBase(shape + "-att2-coldrestart")
+			cs.Parallelism, cs.MaxAttempts, cs.MaxFail = shape, 2, 1
+			cs.ColdStart = true
+			cs.Budget = mc.Budget{Crashes: 1}
+			add(cs)
+		}
 		// Foreign pods occupying the name of attempt 0.
 		for _, kind := range []string{"noowner", "otherowner", "previous-incarnation", "not-controller"} {
 			for _, shape := range []string{"none", "count2"} {
